@@ -357,6 +357,8 @@ class Graph:
 
         node_records = {}
         for name, node in self.nodes.items():
+            if name not in num_seqs:
+                continue  # Pruned from the supergraph (not an ancestor of the supervisor): never executed, hence nothing to record
             # Initialize step record
             rng = graph_state.rng[name] if _record_settings[name]["rng"] else None
             inputs = graph_state.inputs[name] if _record_settings[name]["inputs"] else None
